@@ -73,7 +73,9 @@ def run_unit(idx, timeout_s, second):
             try:
                 known = any(k.get("function") == c.target and k.get("self_cls") == c.self_cls and k.get("kind") == ob.kind
                             and (not k.get("unit") or k["unit"] == c.name) for k in _G.get("known", []))
-                solve.discharge(ob, timeout_s, second, patient=not known)
+                # (after the first failed obligation of a unit the verdict of the unit is settled: the patient last-resort stages, which
+                # only protect provable obligations against a loaded machine, are not spent on the rest of the unit)
+                solve.discharge(ob, timeout_s, second, patient=not known and not failed)
             except Exception as e:  # pragma: no cover
                 ob.status, ob.backend = "error", f"{e}"
         if ob.status in ("sat", "candidate") and not ob.expect_sat:
